@@ -221,7 +221,9 @@ FAULT_ASSUME = [
 def _c17(tier):
     q = tier == 'quick'
     return {
-        'runs': [('fault', {'max_points': 45 if q else None,
+        'runs': [('fault', {'max_points': 40 if q else 120,
+                            'variant': 'big'}, 6 if q else 60),
+                 ('fault', {'max_points': 45 if q else None,
                             'pairs': 0 if q else 12}, 420 if q else 3600),
                  ('fault', {'max_points': 45 if q else None,
                             'variant': 'tree'}, 70 if q else 600),
@@ -231,7 +233,9 @@ def _c17(tier):
         'points per entry, always keeping the must-retry windows; thorough '
         'enumerates every point and adds seeded pairs of faults. Start-up '
         'synchronisation from empty / partially / fully synchronised '
-        'databases is enumerated the same way (profile sync_fault).',
+        'databases is enumerated the same way (profile sync_fault). A '
+        'third corpus (variant big) holds requests touching 101-130 rows of '
+        'one kind, with fault points sampled along the whole request.',
         'assumptions': COMMON_ASSUMPTIONS + FAULT_ASSUME,
         'wall_cap': 280 if q else 6000,
     }
@@ -240,7 +244,9 @@ def _c17(tier):
 def _c18(tier):
     q = tier == 'quick'
     return {
-        'runs': [('crash', {'max_points': 40 if q else None},
+        'runs': [('crash', {'max_points': 60 if q else 150,
+                            'variant': 'big'}, 8 if q else 80),
+                 ('crash', {'max_points': 40 if q else None},
                   520 if q else 4500),
                  ('crash', {'max_points': 40 if q else None,
                             'variant': 'tree'}, 160 if q else 1200)],
@@ -248,7 +254,13 @@ def _c18(tier):
         'rule': FAULT_RULE.replace('(ordinal, fault kind)',
                                    'crash point') +
         ' A second corpus (variant tree) builds provider forests and moves, '
-        'detaches or deletes subtrees. Crash points: before every statement, before and after every '
+        'detaches or deletes subtrees; a third (variant big) holds requests '
+        'touching 101-130 rows of one kind (POST /allocations rewriting or '
+        'emptying that many consumers, a reshaper moving them all to a new '
+        'child provider, PUT/DELETE of that many traits, aggregates or '
+        'inventories, a move of a tree that wide), with points sampled '
+        'along the whole request (first 4, last 12, one from each of 30 '
+        'equal stretches, every commit of a writing transaction). Crash points: before every statement, before and after every '
         'commit. The request thread is frozen for ever at the crash point, '
         'its connections are rolled back and closed; the surviving state is '
         'judged, then the service is restarted and probed.',
